@@ -21,11 +21,21 @@ pub struct Ctx {
     pub issuer: ResourceCert,
     /// a CA under the trust anchor (key k1) that holds AS numbers only
     pub issuer_as_only: ResourceCert,
+    /// a CA (key k2) under the trimming policy whose certificate claims more than the trust anchor holds; validated: a1, a2
+    pub issuer_trimmed: ResourceCert,
     ee_cache: HashMap<String, Vec<u8>>,
 }
 
 fn rc(c: &str, s: &[&str]) -> ResChoice {
     ResChoice { c: c.into(), s: s.iter().map(|x| x.to_string()).collect() }
+}
+
+/// what the trimmed CA's certificate claims: the trust anchor's a1 and a2, and 11.0.0.0/8 resp. AS65000-AS65010 on top
+fn trimmed_claim() -> (rpki::repository::resources::IpResources, rpki::repository::resources::IpResources, rpki::repository::resources::AsResources) {
+    use rpki::repository::resources::{AsBlock, AsBlocks, AsResources, Asn, IpBlock, IpBlocks, IpResources, Prefix};
+    let v4: IpBlocks = [v4_atom("a1"), v4_atom("a2"), IpBlock::from(Prefix::from_v4_str("11.0.0.0/8").unwrap())].into_iter().collect();
+    let asn: AsBlocks = [as_atom("a1"), as_atom("a2"), AsBlock::from((Asn::from_u32(65000), Asn::from_u32(65010)))].into_iter().collect();
+    (IpResources::blocks(v4), IpResources::missing(), AsResources::blocks(asn))
 }
 
 impl Ctx {
@@ -47,7 +57,16 @@ impl Ctx {
             validity: Some(wide),
         };
         let issuer_as_only = Cert::decode(Bytes::from(build_cert(&pki, &ca, &router))).unwrap().validate_ca_at(&issuer, true, now).expect("AS-only CA validates");
-        Ctx { pki, router, issuer, issuer_as_only, ee_cache: HashMap::new() }
+        let issuer_trimmed = {
+            let (v4, v6, asn) = trimmed_claim();
+            let ca = CertParams {
+                kind: "ca".into(), key: "k2".into(), sig_key: "k0".into(), aki: "k0".into(), ski_ok: true, tamper: "none".into(), nb: 0, na: 2,
+                policy: "trim".into(), v4: rc("missing", &[]), v6: rc("missing", &[]), asn: rc("missing", &[]), serial: 3, raw: Some((v4, v6, asn)),
+                validity: Some(wide),
+            };
+            Cert::decode(Bytes::from(build_cert(&pki, &ca, &router))).unwrap().validate_ca_at(&issuer, true, now).expect("trimmed CA validates")
+        };
+        Ctx { pki, router, issuer, issuer_as_only, issuer_trimmed, ee_cache: HashMap::new() }
     }
 
     /// EE certificate for an object of `kind` with EE facet `ee` and coverage facet `cover`.
@@ -113,6 +132,11 @@ impl Ctx {
             let span: AsBlocks = [AsBlock::from((Asn::from_u32(64496), Asn::from_u32(64510)))].into_iter().collect();
             Some((IpResources::missing(), IpResources::missing(), AsResources::blocks(span)))
         } else { raw };
+        let raw = if ee == "overclaim" {
+            use rpki::repository::resources::{AsResources, IpResources};
+            let (v4, _, asn) = trimmed_claim();
+            Some(if kind == "aspa" { (IpResources::missing(), IpResources::missing(), asn) } else { (v4, IpResources::missing(), AsResources::missing()) })
+        } else { raw };
         // "resbad": a second, well-formed element follows the block that covers the object; its bounds are swapped below
         let (asn, raw) = if ee == "resbad" && kind == "aspa" { (rc("blocks", &["a1", "a2"]), raw) }
             else if ee == "resbad" && kind == "roa" {
@@ -126,8 +150,8 @@ impl Ctx {
         let p = CertParams {
             kind: if ee == "isca" { "ca".into() } else { "ee".into() }, key: "e0".into(),
             // the "ipinherit" object is issued by the AS-only CA (key k1)
-            sig_key: if ee == "wrongissuer" { "k2".into() } else if cover == "ipinherit" { "k1".into() } else { "k0".into() },
-            aki: if ee == "akibad" { "k2".into() } else if cover == "ipinherit" { "k1".into() } else { "k0".into() },
+            sig_key: if ee == "wrongissuer" || ee == "overclaim" { "k2".into() } else if cover == "ipinherit" { "k1".into() } else { "k0".into() },
+            aki: if ee == "akibad" || ee == "overclaim" { "k2".into() } else if cover == "ipinherit" { "k1".into() } else { "k0".into() },
             ski_ok: ee != "skibad", tamper: "none".into(), nb: 0, na: 2, policy: pol.into(), v4, v6, asn, serial: 4711, raw, validity: Some(validity),
         };
         let mut d = build_cert(&self.pki, &p, &self.router);
@@ -340,7 +364,7 @@ pub fn replay(args: &[String]) {
             let mode = format!("{}{}{}", if kind == "roa" && fam != "v4" { format!(":{fam}") } else { String::new() }, if pol == "trim" { ":trim" } else { "" }, if strict { "" } else { ":relaxed" });
             let r = guarded(|| {
                 let (bytes, revoked) = assemble(&mut ctx, c);
-                let issuer = if c["f"]["cover"] == "ipinherit" { &ctx.issuer_as_only } else { &ctx.issuer };
+                let issuer = if c["f"]["cover"] == "ipinherit" { &ctx.issuer_as_only } else if c["f"]["ee"] == "overclaim" { &ctx.issuer_trimmed } else { &ctx.issuer };
                 verdicts_under(&ctx, issuer, &kind, bytes, revoked, strict)
             });
             match r {
